@@ -20,12 +20,12 @@ RULE = ("lattice: every 2-D grid {1..4}^2 and 3-D grid {1..3}^3 (one-layer domai
         "all 0/1 fields with at most m solid or at most m void elements, plus the grey tables (generic irrational "
         "fractions, mixed 0/1/grey, ramps, near-solid, near-void). Each point is run with the direction given as unit "
         "3-vector and compared with the reference; on the mirrored / axis-swapped grid in the mapped direction for "
-        "every mirror and swap (covariance; for the 0/1 families of the quick tier and of grids with more than 9 elements "
-        "at the first parameter triple only); and -- for every field at the first (nsampling, parameter) point -- with "
-        "every other way of writing the direction (int list, un-normalised array, "
-        "short float tuple, 2-long forms in 2-D; strings sign-before, sign-after, no sign, upper case) against the "
-        "unit-vector form. A point is non-trivial if the domain has at least two layers in print direction (otherwise "
-        "the filter is the identity); distinct by (grid, nsampling, parameters, direction, family, chunk)")
+        "every mirror and swap (covariance; for the 0/1 families of the quick tier and of grids with more than 9 "
+        "elements at the first parameter triple only); and -- for every field at the first (nsampling, parameter) "
+        "point -- with every other way of writing the direction (int list, un-normalised array, short float tuple, "
+        "2-long forms in 2-D; strings sign-before, sign-after, no sign, upper case) against the unit-vector form. A "
+        "point is non-trivial if the domain has at least two layers in print direction (otherwise the filter is the "
+        "identity); distinct by (grid, nsampling, parameters, direction, family, chunk)")
 ASSUMPTIONS = [
     "element numbering is x-fastest as documented for DomainDefinition (verified separately by C13)",
     "the paper formulas (P-Q smooth maximum with the nominal number of supports, eps smooth minimum) are the meaning of "
@@ -208,7 +208,8 @@ def generate(tier, seed):
     pars_bin = PAR_TABLES[t]
     pars_grey = pars_bin if quick else sorted(PARS)
     tabs = [t] if quick else [0, 1, 2]
-    levels = [(4, 'nel<=4'), (6, 'nel<=6'), (9, 'nel<=9'), (12, 'nel<=12'), (10 ** 9, 'nel>12 (restricted 0/1 families)')]
+    levels = [(4, 'nel<=4'), (6, 'nel<=6'), (9, 'nel<=9'), (12, 'nel<=12'),
+              (10 ** 9, 'nel>12 (restricted 0/1 families)')]
     cur = -1
     for g in all_grids():
         nel = g[0] * g[1] * max(g[2], 1)
@@ -218,16 +219,16 @@ def generate(tier, seed):
             if lv != cur:
                 cur = lv
                 yield {'__level__': levels[lv][1]}
+        if nel <= (nbin2 if dim == 2 else nbin3):
+            fam, extra, n = 'bin', {}, 2 ** nel
+        else:
+            fam, extra, n = 'few', {'m': m}, family_size('few', nel, m)
         for ins, ns in enumerate(ns_list(dim)):
-            for ipar, par in enumerate(pars_grey):
+            for par in pars_grey:
                 for d in dir_list(dim):
                     base = {'grid': list(g), 'ns': ns, 'par': par, 'dir': d}
                     forms = 'all' if (ins == 0 and par == pars_bin[0]) else 'none'
                     maps = 'all' if ((not quick and nel <= 9) or par == pars_bin[0]) else 'none'
-                    if nel <= (nbin2 if dim == 2 else nbin3):
-                        fam, extra, n = 'bin', {}, 2 ** nel
-                    else:
-                        fam, extra, n = 'few', {'m': m}, family_size('few', nel, m)
                     for s in (range(0, n, CHUNK) if par in pars_bin else ()):
                         yield dict(base, fam=fam, chunk=[s, min(CHUNK, n - s)], forms=forms, maps=maps, **extra)
                     for tab in tabs:
